@@ -160,7 +160,8 @@ class _InlineFunction(XPathFunction):
                     raise self.missing_context()
 
                 if tk.symbol != '?' or tk:
-                    context.variables[varname] = tk.evaluate(context)
+                    # the fixed arguments follow the function conversion rules too
+                    context.variables[varname] = get_argument(tk)
                 else:
                     context.variables[varname] = get_argument(args[k])
                     k += 1
